@@ -194,7 +194,9 @@ class C13(CheckBase):
                 fmts = set(re.findall(rb"File system format appears to be ([A-Za-z ]+?) occupying", r.stderr))
                 want = FORMAT_NAME[variant].encode()
                 if case["two_sided"]:
-                    fmts.discard(b"Acorn DFS") if variant != "acorn" else None
+                    # --verbose does not say which side a message is about: side 1 is an Acorn disc, or blank
+                    # (random bytes, which the HDFS flag test may even take for HDFS) -- only side 0 is judged
+                    fmts = {want} if want in fmts else fmts
                 if r.status != 0 or want not in fmts or (fmts - {want}):
                     key = "C13/misidentified"
                     v.fail(key, "%s disc (assignment %s) identified as %s (exit %s)"
